@@ -256,7 +256,7 @@ func c02RLRun(c c02RLCase) (v kit.Verdict) {
 	// two calls that must succeed: breaker padding, and proof that the server survived what came before
 	for i := 0; i < 2; i++ {
 		r := c02RLCall(cl, c02RLNew(c02RLCase{K: "ok"}))
-		if stalled(r) {
+		if stalled(r) || (T > 0 && r.took >= T/2) { // an immediate handler that needed half the server timeout: starved machine
 			cls["machine-stalled"] = true
 			v.Excluded = true
 			return v
@@ -266,7 +266,21 @@ func c02RLRun(c c02RLCase) (v kit.Verdict) {
 		}
 	}
 	b := c02RLNew(c)
+	// control: a plain timer of the server timeout's length, started with the call; when even
+	// that fires a second late, this process was starved and nothing real-clock can be judged
+	ctlStart, ctl := time.Now(), make(chan time.Duration, 1)
+	ctlTimer := time.AfterFunc(T, func() { ctl <- time.Since(ctlStart) })
 	r := c02RLCall(cl, b)
+	ctlTimer.Stop()
+	select {
+	case fired := <-ctl:
+		if fired-T >= time.Second {
+			cls["machine-stalled"] = true
+			v.Excluded = true
+			return v
+		}
+	default:
+	}
 	if w := time.Duration(atomic.LoadInt64(&b.waited)); c.S == 2 && w >= 4*time.Second {
 		// measured inside the handler, right after two calls that were answered promptly
 		return v.Failf("rpc loopback server %d (timeout %v), %+v: the handler's context was done only %v after the handler started: the server timeout did not end the call; got %v", c.S, T, c, w.Round(time.Millisecond), r)
